@@ -39,7 +39,7 @@ func TestC07Conn(t *testing.T) {
 	st := pbt.NewStats("TestC07Conn")
 	defer st.Flush()
 	softKinds := []string{"valid", "valid", "valid", "replay", "replay-reencrypted", "client-typed", "type-2", "old-301", "old-299", "future-31", "future-29", "wrong-session", "lower-fresh"}
-	hardKinds := []string{"pad-0", "pad-4", "pad-8", "pad-12", "pad-1024", "pad-1040", "len-not-mult-4", "wrong-key", "flipped-bit", "none"}
+	hardKinds := []string{"pad-0", "pad-4", "pad-8", "pad-12", "pad-1024", "pad-1040", "len-not-mult-4", "len-neg-4", "len-neg-8", "len-neg-512", "len-neg-1", "len-min-int32", "wrong-key", "flipped-bit", "none"}
 	rapid.Check(t, func(t *rapid.T) {
 		rnd, seed := pbt.DrawStream(t, "rnd")
 		n := rapid.IntRange(1, 25).Draw(t, "n")
@@ -156,6 +156,24 @@ func TestC07Conn(t *testing.T) {
 					body = append(probeBody(tag, 0), 0xAA) // 13 bytes
 					dataLen = 13
 					pad = 16 - (32+13)%16 + 16
+					expect = false
+					oneRule = true
+				case "len-neg-4", "len-neg-8", "len-neg-512", "len-neg-1", "len-min-int32":
+					// message_data_length is a signed 32-bit field: a negative value is
+					// no payload length at all (the frame itself is well-formed and
+					// block-aligned, so only the length rule can refuse it)
+					switch kind {
+					case "len-neg-4":
+						dataLen = -4
+					case "len-neg-8":
+						dataLen = -8
+					case "len-neg-512":
+						dataLen = -512
+					case "len-neg-1":
+						dataLen = -1
+					default:
+						dataLen = -1 << 31
+					}
 					expect = false
 					oneRule = true
 				case "wrong-key":
